@@ -128,6 +128,7 @@ use super::resource::Resource;
 use crate::io::Fd;
 use crate::job::Pid;
 use crate::job::ProcessState;
+use crate::path::Component;
 use crate::path::Path;
 use crate::path::PathBuf;
 use crate::semantics::ExitStatus;
@@ -903,7 +904,16 @@ impl Chdir for VirtualSystem {
         let inode = self.resolve_existing_file(AT_FDCWD, path, /* follow links */ true)?;
         if matches!(&inode.borrow().body, FileBody::Directory { .. }) {
             let mut process = self.current_process_mut();
-            let new_path = process.cwd.join(path);
+            // The working directory path must not contain `.` or `..`.
+            // They are resolved in the same manner as `FileSystem::get`.
+            let mut new_path = PathBuf::new();
+            for component in process.cwd.join(path).components() {
+                match component {
+                    Component::CurDir => (),
+                    Component::ParentDir => _ = new_path.pop(),
+                    Component::RootDir | Component::Normal(_) => new_path.push(component),
+                }
+            }
             process.chdir(new_path);
             Ok(())
         } else {
@@ -3437,6 +3447,34 @@ mod tests {
         let result = system.chdir(c"/dir");
         assert_eq!(result, Ok(()));
         assert_eq!(system.current_process().cwd, Path::new("/dir"));
+    }
+
+    #[test]
+    fn chdir_normalizes_working_directory_path() {
+        let system = VirtualSystem::new();
+
+        // Create a regular file and its parent directories
+        let _ = system
+            .open(
+                c"/dir/sub/file",
+                OfdAccess::WriteOnly,
+                OpenFlag::Create.into(),
+                Mode::empty(),
+            )
+            .now_or_never()
+            .unwrap();
+
+        let result = system.chdir(c"/dir/./sub/..");
+        assert_eq!(result, Ok(()));
+        assert_eq!(system.getcwd().unwrap(), Path::new("/dir"));
+
+        let result = system.chdir(c"./sub/../sub");
+        assert_eq!(result, Ok(()));
+        assert_eq!(system.getcwd().unwrap(), Path::new("/dir/sub"));
+
+        let result = system.chdir(c"../../..");
+        assert_eq!(result, Ok(()));
+        assert_eq!(system.getcwd().unwrap(), Path::new("/"));
     }
 
     #[test]
